@@ -84,14 +84,16 @@ type c32Row struct {
 	ellipsis bool
 	addr     uint64
 	bytes    []string
+	marked   bool // the row carries the cursor marker '>'
 }
 
 func c32Parse(out string) ([]c32Row, string) {
 	var rows []c32Row
 	for _, l := range strings.Split(strings.TrimSuffix(out, "\n"), "\n") {
 		parts := strings.Split(l, " | ")
+		marked := strings.HasPrefix(l, ">")
 		if len(parts) == 2 && strings.TrimSpace(parts[1]) == "..." {
-			rows = append(rows, c32Row{ellipsis: true})
+			rows = append(rows, c32Row{ellipsis: true, marked: marked})
 			continue
 		}
 		if len(parts) != 3 {
@@ -105,7 +107,7 @@ func c32Parse(out string) ([]c32Row, string) {
 		if len(toks) != 16 {
 			return nil, fmt.Sprintf("row %q shows %d byte cells", l, len(toks))
 		}
-		rows = append(rows, c32Row{addr: a, bytes: toks})
+		rows = append(rows, c32Row{addr: a, bytes: toks, marked: marked})
 	}
 	return rows, ""
 }
@@ -257,6 +259,35 @@ func c32Run(c c32Case) *eng.Fail {
 				if aerr != nil || cur != rowOfWindow[a&^15] {
 					return &eng.Fail{Sig: "memview address wrong-row", What: fmt.Sprintf("address %#x (stored), issued with the cursor on row %d, selects row %d (err %v), its row is %d", a, start, cur, aerr, rowOfWindow[a&^15]), Case: c}
 				}
+				if start == 0 || start == nrows-1 {
+					// what the user sees: on a screen that cannot show all rows (5, 8 lines) and on a tall
+					// one, exactly one row carries the marker and it is the row holding the address
+					for _, n := range []int{5, 8, 200} {
+						var sp any
+						var sstack string
+						var serr error
+						sout := uix.Capture(func() { sp, sstack = eng.Catch(func() { serr = v.Print(n) }) })
+						if sp != nil || serr != nil {
+							return &eng.Fail{Sig: "memview render panic " + eng.PanicSite(sstack), What: fmt.Sprintf("rendering %d lines after 'address %#x' fails: %v %v", n, a, sp, serr), Case: c}
+						}
+						srows, bad := c32Parse(sout)
+						if bad != "" {
+							return &eng.Fail{Sig: "memview unparsable", What: bad, Case: c}
+						}
+						marks := 0
+						for _, sr := range srows {
+							if sr.marked {
+								marks++
+								if sr.ellipsis || sr.addr != a&^15 {
+									return &eng.Fail{Sig: "memview marker on wrong row", What: fmt.Sprintf("after 'address %#x' a screen of %d lines marks the row of %#x (ellipsis: %v)", a, n, sr.addr, sr.ellipsis), Case: c}
+								}
+							}
+						}
+						if marks != 1 {
+							return &eng.Fail{Sig: "memview marker count", What: fmt.Sprintf("after 'address %#x' a screen of %d lines shows %d marked rows: %q", a, n, marks, sout), Case: c}
+						}
+					}
+				}
 			case !inRow:
 				if aerr == nil {
 					return &eng.Fail{Sig: "memview address accepts-unmapped", What: fmt.Sprintf("address %#x lies in no row but was accepted (row %d)", a, cur), Case: c}
@@ -279,7 +310,7 @@ func wW(w int) expr.Width { return expr.Width(w) }
 func init() {
 	checks["C32"] = eng.Check{
 		Procs:       8,
-		Rule:        "memories (Sparse; Overlay(Bytes, Sparse) with 3 base layouts) storing EVERY union of <=2 runs with endpoints from {0,1,15,16,17,31,32,33,47,48} (thorough: <=3 runs with endpoints from {0,1,2,15,16,17,31,32,33,47,48,63,64}) plus a far run, written with distinct bytes as 1..4-byte stores and then partially overwritten (3 overwrite patterns), also shifted to 0xfff0 and to the top of the address space; the real memory view rendered with 200 granted lines and parsed: one row per aligned 16-byte window touching stored memory in address order, each stored byte's current value, '..' for absent bytes, exactly one ellipsis between non-consecutive rows and none between consecutive ones; the real address command for every stored address +-1 and window edge, issued from EVERY cursor row (data and ellipsis rows): selects the stored address's row, fails (cursor unchanged) outside every row. Non-trivial = layout with stored bytes.",
+		Rule:        "memories (Sparse; Overlay(Bytes, Sparse) with 3 base layouts) storing EVERY union of <=2 runs with endpoints from {0,1,15,16,17,31,32,33,47,48} (thorough: <=3 runs with endpoints from {0,1,2,15,16,17,31,32,33,47,48,63,64}) plus a far run, written with distinct bytes as 1..4-byte stores and then partially overwritten (3 overwrite patterns), also shifted to 0xfff0 and to the top of the address space; the real memory view rendered with 200 granted lines and parsed: one row per aligned 16-byte window touching stored memory in address order, each stored byte's current value, '..' for absent bytes, exactly one ellipsis between non-consecutive rows and none between consecutive ones; the real address command for every stored address +-1 and window edge, issued from EVERY cursor row (data and ellipsis rows): selects the stored address's row, fails (cursor unchanged) outside every row; after a successful address command screens of 5, 8 and 200 lines show exactly one marked row, the one holding the address. Non-trivial = layout with stored bytes.",
 		Assumptions: []string{"leading/trailing ellipsis rows and the outcome for an absent byte inside a shown row are not constrained"},
 		Run: func(r *eng.Run) {
 			ends := []int{0, 1, 15, 16, 17, 31, 32, 33, 47, 48}
